@@ -238,6 +238,8 @@ def run_case(ctx, case):
             rel, tol = abs(fx - fy), 1e-8 * max(1.0, sc)
         if h.startswith(("d_", "dk_")):
             tol = 1e-6       # differences of nearly equal amounts
+        if h in ("Calcite", "Gypsum", "Celestite"):
+            tol = 1e-7       # what is left of a phase is its initial amount minus what reacted (1.5e-8 measured at water factor 0.05)
         if h in ("pressure", "total mol", "volume") or h.startswith("g_"):
             tol = 5e-6       # measured solver-noise floor of the gas-phase unknowns (C10 measured the same floor between an exact in-memory copy and its original)
         worst = max(worst, rel)
